@@ -152,6 +152,24 @@ static bool parse_double(const char **p, double *val) {
     return true;
 }
 
+/* Parse [-]nan(0xMANTISSA): a NaN with its payload, as the disassembler prints it */
+static bool parse_nan_bits(const char **p, uint64_t *bits) {
+    skip_whitespace(p);
+    const char *q = *p;
+    bool negative = (*q == '-');
+    if (*q == '-' || *q == '+') q++;
+    if (strncmp(q, "nan(", 4) != 0) return false;
+    q += 4;
+    char *end;
+    errno = 0;
+    unsigned long long mantissa = strtoull(q, &end, 16);
+    if (end == q || *end != ')' || errno != 0) return false;
+    if (mantissa == 0 || mantissa > 0xFFFFFFFFFFFFFULL) return false;
+    *bits = (negative ? 0x8000000000000000ULL : 0) | 0x7FF0000000000000ULL | mantissa;
+    *p = end + 1;
+    return true;
+}
+
 static bool parse_int32(const char **p, int32_t *val) {
     int64_t v;
     if (!parse_int64(p, &v)) return false;
@@ -334,14 +352,17 @@ static uint32_t encode_operand(uint8_t *buf, OperandType type,
         }
         case OPERAND_F64: {
             double v;
-            if (!parse_double(line_ptr, &v)) {
+            uint64_t bits;
+            if (parse_nan_bits(line_ptr, &bits)) {
+                /* bit pattern taken as written */
+            } else if (parse_double(line_ptr, &v)) {
+                memcpy(&bits, &v, sizeof(bits));
+            } else {
                 result->error = ASM_ERR_BAD_OPERAND;
                 snprintf(result->message, sizeof(result->message),
                          "Expected f64 operand");
                 return 0;
             }
-            uint64_t bits;
-            memcpy(&bits, &v, sizeof(bits));
             for (int i = 0; i < 8; i++) {
                 buf[i] = (uint8_t)(bits & 0xFF);
                 bits >>= 8;
